@@ -55,6 +55,10 @@ func init() {
 			{ID: "C03-R23", Title: "error results are not typed nils", Floor: 1, Run: errorResultsAreNotTypedNils},
 			{ID: "C03-R24", Title: "the lexer does not recurse", Floor: 1, Run: lexerDoesNotRecurse},
 			{ID: "C03-R25", Title: "assertions on the unprotected surface are checked", Floor: 0, Run: assertionsOnTheUnprotectedSurfaceAreChecked},
+			{ID: "C03-R26", Title: "the value of a failed two-valued assertion is not used", Floor: 100, Run: failedAssertionsAreNotUsed},
+			{ID: "C03-R27", Title: "deferred closures that re-enter the function that deferred them count their nesting", Floor: 1, Run: deferredReentryIsBounded},
+			{ID: "C03-R28", Title: "goroutines do not dereference fields that are set to nil elsewhere", Floor: 2, Run: goroutinesDoNotUseWhatIsClearedElsewhere},
+			{ID: "C03-R29", Title: "recover handlers of goroutines do not panic themselves", Floor: 1, Run: recoverHandlersDoNotPanic},
 		},
 	})
 }
